@@ -29,6 +29,8 @@ pub struct Scenario {
     pub label: String,
     /// k > 0: every k-th read of the source is short although input remains
     pub short_reads: usize,
+    /// the source signals the end with a bare Ok(0) (no empty fill)
+    pub bare_eof: bool,
 }
 
 impl Scenario {
@@ -39,7 +41,7 @@ impl Scenario {
             "pcm_hash": format!("{:016x}", prng::hash_i32s(&self.audio.samples)),
             "block": self.block, "frames": (self.audio.frames() + self.block - 1) / self.block,
             "workers": self.workers, "env_FLACENC_WORKERS": self.env, "policy": format!("{:?}", self.policy),
-            "faults": format!("{:?}", self.faults), "fill": format!("{:?}", self.mode), "config": gen::describe_config(&self.cfg), "short_read_every": self.short_reads,
+            "faults": format!("{:?}", self.faults), "fill": format!("{:?}", self.mode), "config": gen::describe_config(&self.cfg), "short_read_every": self.short_reads, "bare_eof": self.bare_eof,
         })
     }
 }
@@ -101,6 +103,7 @@ fn gen_c05_long(seed: u64, idx: u64) -> Scenario {
         hint: rng.flip(),
         label: format!("long#{idx}"),
         short_reads: 0,
+        bare_eof: false,
     }
 }
 
@@ -127,6 +130,7 @@ fn gen_c05_big(seed: u64, idx: u64) -> Scenario {
         hint: false,
         label: format!("big#{idx}"),
         short_reads: 0,
+        bare_eof: false,
     }
 }
 
@@ -176,6 +180,7 @@ pub fn gen_c05(seed: u64, sub: &str, idx: u64) -> Scenario {
         label: format!("{sub}#{idx}"),
         // one scheduled scenario in eight reads from a pipe-style source (short reads mid-stream)
         short_reads: if sub == "sched" && idx % 8 == 5 { 2 + (idx as usize / 8) % 3 } else { 0 },
+        bare_eof: idx % 4 == 1,
     }
 }
 
@@ -205,7 +210,7 @@ pub fn c06_grid(tier: Tier) -> Vec<(usize, u8, usize, usize, usize)> {
 pub fn gen_c06(seed: u64, tier: Tier, sub: &str, idx: u64) -> Scenario {
     let mut rng = Rng::for_case(seed, &format!("C06.{sub}"), idx);
     let bps = *rng.pick(&[16usize, 16, 8, 24, 12]);
-    let channels = *rng.pick(&[1usize, 2, 2, 3]);
+    let channels = if sub == "ragged" { *rng.pick(&[2usize, 2, 3, 5]) } else { *rng.pick(&[1usize, 2, 2, 3]) };
     let block = *rng.pick(&[32usize, 64, 64, 128]);
     let bad_value = |rng: &mut Rng| -> i32 {
         let over = 1i32 << (bps - 1);
@@ -236,6 +241,15 @@ pub fn gen_c06(seed: u64, tier: Tier, sub: &str, idx: u64) -> Scenario {
             let w = *rng.pick(&[1usize, 2, 3, 4, 8]);
             (f, faults, w, rng.usize_below(POLICIES.len()), format!("combo F={f}"))
         }
+        "ragged" => {
+            // a block that is not a whole number of inter-channel samples, at read k (the source
+            // misbehaves; what the library does with it may be an error or not, but multi-thread
+            // mode must do what single-thread mode does, return, and leave no thread behind)
+            let f = 1 + rng.usize_below(12);
+            let k = rng.usize_below(f);
+            let w = *rng.pick(&[1usize, 2, 3, 4, 8]);
+            (f, vec![Fault::RaggedAt { read: k, extra: 1 + rng.usize_below(2) }], w, rng.usize_below(POLICIES.len()), format!("ragged F={f} k={k} W={w}"))
+        }
         _ => {
             // fault-free
             let f = rng.usize_below(13);
@@ -261,6 +275,7 @@ pub fn gen_c06(seed: u64, tier: Tier, sub: &str, idx: u64) -> Scenario {
         hint: rng.flip(),
         label,
         short_reads: 0,
+        bare_eof: idx % 4 == 2,
     }
 }
 
@@ -279,6 +294,7 @@ fn run_encode(cfg: &config::Encoder, sc: &Scenario, multithread: bool) -> Result
     let v = enc::verified(&c).map_err(|e| EncErr::Api("ConfigRejected", e))?;
     let mut src = TestSource::new(Arc::clone(&sc.audio), sc.mode, sc.hint && sc.short_reads == 0).with_faults(sc.faults.clone());
     src.short_reads = sc.short_reads;
+    src.bare_eof = sc.bare_eof;
     let stream = enc::encode_stream(&v, src, sc.block)?;
     enc::to_bytes(&stream).map_err(|e| EncErr::Api("Serialise", format!("{e:?}").chars().take(200).collect()))
 }
@@ -539,10 +555,11 @@ pub fn run_c06(ctx: &Ctx) -> i32 {
     supervise_sub(ctx, "enum", grid, &agg);
     supervise_sub(ctx, "combo", ctx.tier.pick(480, 16_000), &agg);
     supervise_sub(ctx, "faultfree", ctx.tier.pick(480, 16_000), &agg);
+    supervise_sub(ctx, "ragged", ctx.tier.pick(240, 8000), &agg);
     let out = std::mem::take(&mut agg.lock().unwrap().out);
     let fin = Finish {
         level: "fault_enumeration",
-        rule: "'enum' enumerates F in {1,2,3,5,8,12} (thorough: {1,2,3,4,5,8,12,20}) frames x fault kind (read error at read k for every k in 0..=F; out-of-range sample at first/middle/last position of block k for every k < F) x W x schedule policy (quick: W in {1,2,3,4}, 5 policies; thorough: W in {1,2,3,4,8,16}, 8 policies); 'combo' = 2-4 random faults; 'faultfree' = no fault. Each scenario runs in a supervised child: the call must return (deadlock = all tasks in futex wait without CPU time/context switches for 20 samples), no thread may panic, the error kind must equal single-thread's for the same source, no helper thread may be alive at return (event log T5 + /proc/self/task), and fault-free runs satisfy T1-T4; distinct = distinct interleavings",
+        rule: "'enum' enumerates F in {1,2,3,5,8,12} (thorough: {1,2,3,4,5,8,12,20}) frames x fault kind (read error at read k for every k in 0..=F; out-of-range sample at first/middle/last position of block k for every k < F) x W x schedule policy (quick: W in {1,2,3,4}, 5 policies; thorough: W in {1,2,3,4,8,16}, 8 policies); 'combo' = 2-4 random faults; 'faultfree' = no fault; 'ragged' = a block that is not a whole number of inter-channel samples at a random read (judged like the other faults: same outcome kind as single-thread, return, no panic, no thread left). A quarter of the sources signal the end with a bare Ok(0) instead of an empty fill. Each scenario runs in a supervised child: the call must return (deadlock = all tasks in futex wait without CPU time/context switches for 20 samples), no thread may panic, the error kind must equal single-thread's for the same source, no helper thread may be alive at return (event log T5 + /proc/self/task), and fault-free runs satisfy T1-T4; distinct = distinct interleavings",
         assumptions: vec!["a livelock that keeps switching context would be inconclusive (watchdog), not a violation".into()],
         exhaustive: Some(false),
         floors: vec![("scenarios that returned an error (fault manifested)".into(), out.stats.iter().filter(|(k, _)| k.starts_with("result_par_Err")).map(|(_, v)| *v).sum(), 100)],
